@@ -6,7 +6,7 @@ All numeric content is symbolic; r2(history fit) == r2(fresh fit) is an SMT equa
 shows up as a term built from the old inputs)."""
 import itertools
 
-from props.fitlib import Problem
+from props.fitlib import Problem, assume_counts
 from vx import oracle as O
 from vx.core import Scenario
 
@@ -151,6 +151,78 @@ def sc_interfere(cx, ftype, variant, reads1, muts, r2):
         cx.eq(tag, va, vb)
 
 
+def sc_newdata_nll(cx, ftype, r1, r2):
+    """histogram (Poisson likelihood) and unbinned fits: data replaced after a read -- everything that depends on the
+    data (for histograms also through the number of entries that scales the model) follows"""
+    from kafe2 import HistContainer
+
+    def build(tag):
+        pb = Problem(cx, ftype, cost="nll" if ftype == "hist" else None) if ftype == "hist" else Problem(cx, ftype)
+        pb.set_point()
+        return pb
+
+    def replace(pb):
+        if ftype == "hist":
+            h = HistContainer(pb.n, (pb.edges[0], pb.edges[-1]), bin_edges=list(pb.edges))
+            new = cx.reals("new_h", pb.n)
+            uf, of = cx.real("new_uf"), cx.real("new_of")
+            for v in list(new) + [uf, of]:
+                cx.assume(v >= 0)
+            assume_counts(cx, new)
+            if r2 == "goodness_of_fit":
+                for v in new:
+                    cx.assume(v > 0)  # saturated likelihood with empty bins: separate zero-handling branch, not the subject
+            h.set_bins(list(new), underflow=uf, overflow=of)
+            pb.fit.data = h
+        else:
+            new = cx.reals("new_u", pb.n)
+            pb.fit.data = list(new)
+
+    a = build("a")
+    for v in list(_read(a.fit, "model")) if r1 == "cost_function_value" else ():
+        cx.assume(v > 0)  # the likelihood read before the replacement is defined
+    if r1:
+        _read(a.fit, r1)
+    replace(a)
+    b = build("b")
+    replace(b)
+    if ftype == "unbinned" or r2 in ("cost_function_value", "goodness_of_fit"):
+        for v in list(_read(b.fit, "model")):
+            cx.assume(v > 0)
+    vb = _read(b.fit, r2)
+    va = _read(a.fit, r2)
+    cx.eq("%s after %s then new-data" % (r2, r1 or "no-read"), va, vb)
+
+
+def sc_newdata_container(cx, ftype, r1, r2):
+    """a fit declared without uncertainties whose data are replaced by a CONTAINER that brings its own sources: same as
+    the fit constructed from that container"""
+    from kafe2 import IndexedContainer, IndexedFit, XYContainer, XYFit
+
+    a = Problem(cx, ftype, cost="chi2")
+    a.set_point()
+    if r1:
+        _read(a.fit, r1)
+    e = cx.real("c_e")
+    cx.assume(e > 0)
+    if ftype == "xy":
+        nx, ny = cx.reals("c_x", a.n), cx.reals("c_y", a.n)
+        cont = XYContainer(list(nx), list(ny))
+        cont.add_error("y", e, name="ce")
+    else:
+        ny = cx.reals("c_y", a.n)
+        cont = IndexedContainer(list(ny))
+        cont.add_error(e, name="ce")
+    a.fit.data = cont
+    b = (XYFit if ftype == "xy" else IndexedFit)(cont, a.model["fn"] if ftype == "xy" else a.fn, cost_function="chi2")
+    b.set_all_parameter_values(list(a.fit.parameter_values))
+    tag = "%s after %s then data := container with a source" % (r2, r1 or "no-read")
+    if r2 == "cost-function":
+        cx.concrete(tag, a.fit._cost_function.name == b._cost_function.name, info="%s vs %s" % (a.fit._cost_function.name, b._cost_function.name))
+    else:
+        cx.eq(tag, _read(a.fit, r2), _read(b, r2))
+
+
 def sc_abs(cx, variant, mut, r2, reads1):
     """documented-formula oracle (fitlib) instead of the relational one: catches staleness that a freshly built fit shares
     (e.g. a getter that forgets to push the current parameters into the parametric model)"""
@@ -171,6 +243,10 @@ def sc_abs(cx, variant, mut, r2, reads1):
     n = pb.n
     if r2 == "y_model":
         cx.eq(tag, got, pb.model_values(p))
+    elif r2 == "model":
+        # the (2, N) array of an XYFit: x and y model values
+        cx.eq(tag + "[x]", list(got[0]), list(pb.x))
+        cx.eq(tag + "[y]", list(got[1]), pb.model_values(p))
     elif r2 == "y_model_cov_mat":
         cx.eq(tag, got, pb.axis_cov("y", p, which=("model",)))
     elif r2 == "y_model_error":
@@ -231,7 +307,7 @@ def scenarios(tier, seed):
     for variant in ("modelrel", "full"):
         for m in ("fix", "set-par", "set-all", "none"):
             for reads1 in ((), ("cost_function_value",)):
-                for r2 in ("y_model_error", "y_model_cov_mat", "total_cov_mat", "total_error", "y_model", "y_total_cov_mat", "y_model_cor_mat"):
+                for r2 in ("y_model_error", "y_model_cov_mat", "total_cov_mat", "total_error", "y_model", "model", "y_total_cov_mat", "y_model_cor_mat"):
                     if variant == "full" and r2.startswith("y_model_"):
                         continue
                     if q and reads1 and r2 not in ("y_model_error", "total_cov_mat"):
@@ -248,6 +324,14 @@ def scenarios(tier, seed):
             for r1 in (FIRST_READS if not q else FIRST_READS[:2]):
                 for r2 in (READS_BASE if not q else READS_BASE[:8]):
                     add(ftype, "plain" if ftype == "hist" else "rel", [r1], [m], r2)
+    for ftype in ("hist", "unbinned"):
+        for r1 in ("cost_function_value", "model", None):
+            for r2 in ("cost_function_value", "model", "data") + (() if ftype == "unbinned" else ("goodness_of_fit",)):
+                S.append(Scenario("newdata/%s/%s/%s" % (ftype, r1 or "none", r2), sc_newdata_nll, family="newdata/" + ftype, params=dict(ftype=ftype, r1=r1, r2=r2)))
+    for ftype in ("xy", "indexed"):
+        for r1 in ("cost_function_value", None):
+            for r2 in ("cost_function_value", "total_error", "total_cov_mat", "cost-function"):
+                S.append(Scenario("newdata-container/%s/%s/%s" % (ftype, r1 or "none", r2), sc_newdata_container, family="newdata-container/" + ftype, params=dict(ftype=ftype, r1=r1, r2=r2)))
     if not q:
         for m1, m2 in itertools.permutations(["add-abs", "add-rel-model", "disable", "constraint", "set-par", "fix", "new-data", "add-x", "add-matrix"], 2):
             if m1 == "new-data" and m2 == "disable":
